@@ -109,7 +109,11 @@ class SrcGen:
             s = self.expr(d - 1, q, depth) + " " + op + self.nl(depth) + " " + self.expr(d - 1, q + 1, depth)
             return "(" + s + ")" if q < p else s
         if k == 6:
-            s = self.pick(UNOPS) + self.expr(d - 1, 6, depth)
+            o1 = self.pick(UNOPS)
+            if self.r.below(3) == 0:      # a chain of prefix operators; a blank only where the two would lex as one token
+                o2 = self.pick(UNOPS + ["&", "*", "<-"])
+                o1 = o1 + (" " if (o1 + o2)[:2] in ("--", "++", "&&", "&^") or self.r.below(3) == 0 else "") + o2
+            s = o1 + self.expr(d - 1, 6, depth)
             return "(" + s + ")" if 6 < p else s
         if k == 7:
             n = self.r.below(3)
@@ -143,6 +147,13 @@ class SrcGen:
 
     def comment(self, ind):
         if self.layout and self.r.below(100) < self.layout // 2:
+            if self.r.below(3) == 0:
+                # a multi-line block comment: in column 1 or indented like the code, text lines uniformly indented
+                # (mixed indentation of the text lines is not idempotent: deterministic family, listed)
+                pre = self.pick(["", ind])
+                text = self.pick(["", "\t", " * "])
+                first = self.pick(["/*", "/* head"])
+                return pre + first + "\n" + pre + text + "aaa\n" + pre + text + "bbb\n" + pre + (" */" if text == " * " else "*/") + "\n"
             return ind + self.pick(["// note", "/* block */", "// TODO: x", "//go:noinline"]) + "\n"
         return ""
 
@@ -179,6 +190,12 @@ class SrcGen:
         if k == 9:
             return t + 'println "%s"\n' % self.pick(["a=${a}", "$$", "${x+1}!", "plain"])
         if k == 10:
+            if self.r.below(2):
+                # a one-line function literal whose comments run across the printer's one-liner limit
+                n = self.pick([20, 60, 95, 99, 100, 101, 105, 160])
+                # (after a blank line: directly under a line with a trailing comment the alignment of that comment is not
+                #  idempotent when the literal's body is only a long comment - deterministic witness in DET_SOURCES)
+                return "\n" + t + "%s := func() { %s%s }\n" % (self.pick(NAMES), self.pick(["", "y() ", "/* a */ y(); "]), _com(n))
             return t + "%s++\n" % self.pick(NAMES)
         if k == 11 and d > 0:
             return t + "switch %s {\n%scase 1, 2:\n%s%sdefault:\n%s%s}\n" % (self.pick(NAMES), t, self.block(d - 1, ind + "\t"), t, self.block(d - 1, ind + "\t"), t)
@@ -215,6 +232,7 @@ DET_SOURCES = [
     b"if (T{}) {\n}\n", b"if (x!) {\n}\n", b"if (a ?: b) {\n}\n", b"x := ((a))\n", b"if ((a)) {\n}\n",
     b"println ${/*C*/name}\n", b"m.Foo/*C*/()\n", b"C.printf /*C*/ c\"x\"\n", b"/*C*/ echo a\necho b\n", b"a := 4/ /*C*/5r\n",
     b"x = fmt.sprint(obj.m( nil,\n\t),\n)\n",
+    b"a = 3.5 // eol\nfoo := func() { /*c0 long comment text long comment text long comment text long comment text long comment text long com*/ }\n",
     b"#!/usr/bin/env xgo\nprintln 1\n", b"# sharp comment\nprintln 1 # trailing\n", b"#\nprintln 1\n",
 ]
 
